@@ -4,11 +4,15 @@ use serde::{de::DeserializeOwned, Serialize};
 
 pub mod c01;
 pub mod c02;
+#[cfg(feature = "sched")]
+pub mod c14;
 
 pub fn run(id: &str, o: &Opts, stats: &mut Stats) -> Option<usize> {
     match id {
         "C01" => c01::run(o, stats),
         "C02" => c02::run(o, stats),
+        #[cfg(feature = "sched")]
+        "C14" => c14::run(o, stats),
         _ => {
             eprintln!("unknown property {}", id);
             std::process::exit(2)
